@@ -138,6 +138,8 @@ def setup(c):
                     'arma2psd': smod('arma').arma2psd})
     install.contract('spectrum.arma', 'ma', post_ma)
     install.contract('spectrum.arma', 'arma_estimate', post_arma_estimate)
+    reach.cover(c, {'arma_estimate': install.original('spectrum.arma', 'arma_estimate'),
+                    'arma2psd': smod('arma').arma2psd})
 
 
 KINDS = ['noise', 'ar', 'arma', 'tones', 'int']
